@@ -96,11 +96,13 @@ def padHex (width : Nat) (n : Nat) : Str :=
   let h := toHex n
   List.replicate (width - h.length) 48 ++ h
 
-/-- `\\u\{([0-9a-f]{1,6})\}` replaced by `\uXXXX` (≤ 0xFFFF) or `\UXXXXXXXX`, leftmost non-overlapping -/
+/-- `\\\\|\\u\{([0-9a-f]{1,6})\}`, leftmost non-overlapping: an escaped backslash is copied (so that what follows it is not
+read as an escape), `\u{h…}` is replaced by `\uXXXX` (≤ 0xFFFF) or `\UXXXXXXXX` -/
 def pyRewrite : Nat → Str → Str
   | 0, s => s
   | fuel + 1, s =>
     match s with
+    | 92 :: 92 :: rest => 92 :: 92 :: pyRewrite fuel rest
     | 92 :: 117 :: 123 :: rest =>
       let ds := rest.takeWhile isLowerHex
       let after := rest.dropWhile isLowerHex
